@@ -57,3 +57,17 @@ def clone(node):
         new.children.append(cc)
         cc.parent = new
     return new
+
+
+def tag_uids(root):
+    """give every node a unique data['uid'] (storage preorder) so that specifications can speak
+    about node identity across a transformation"""
+    cnt = [0]
+
+    def go(n):
+        n.data['uid'] = cnt[0]
+        cnt[0] += 1
+        for c in n.children:
+            go(c)
+    go(root)
+    return root
